@@ -1297,3 +1297,125 @@ def parameter_single_source(P, rep, rule="PARAM.source"):
         else:
             rep.ok(rule, "%s: world's %s read while parsing only" % (cls.replace("WorldBuilder::Features::", ""), ", ".join(sorted(shadow))), "", cls)
     rep.floor(rule, n_cls, 5, "model classes with their own copy of a world constant")
+
+
+# ------------------------------------------------------------------------------------------------
+def mckenzie_formula(P, rep, rule="EXPR.mckenzie"):
+    """the slab `plate model` is McKenzie's (1970) series"""
+    from .veceval import VecEval, EPS
+    from .frame import _at
+    rep.rule(rule, "SubductingPlateModels::Temperature::PlateModel: T = f * (Tm + 2 (Tm - 273.15) sum_{n=1..N} ((-1)^n/(n pi)) exp((R - sqrt(R^2 + n^2 "
+                   "pi^2)) x') sin(n pi z')), R = rho cp v H/(2 k) with v the plate velocity per second, H = min(local thickness, max distance), "
+                   "x' = distance along the slab / H, z' = 1 - distance from the slab surface / H, f = exp(alpha g depth/cp) with adiabatic heating "
+                   "and 1 without (McKenzie 1970, as documented); the extracted loop term and final expression are compared by a 40-digit "
+                   "zero test at five parameter points")
+    fs = P.funcs_named("WorldBuilder::Features::SubductingPlateModels::Temperature::PlateModel::get_temperature")
+    if not fs:
+        rep.unknown(rule, "SubductingPlateModels::Temperature::PlateModel::get_temperature not found")
+        return
+    F = fs[0]
+    loops = [l for l in F.walk(F.body) if l.get("k") == "ForStmt"]
+    if len(loops) != 1:
+        rep.unknown(rule, "%d loops in the slab plate model (one series expected)" % len(loops))
+        return
+    loop = loops[0]
+    blk = astq.enclosing(F, loop, ("CompoundStmt",))
+    iv = loop["c"][0]["c"][0] if loop["c"][0] is not None and loop["c"][0].get("k") == "DeclStmt" else None
+    if iv is None:
+        rep.unknown(rule, "series loop variable not found")
+        return
+    n_ok = 0
+    for adiabatic in (True, False):
+        def choose(cv, node, adiabatic=adiabatic):
+            txt = str(cv)
+            if "adiabatic_heating" in txt:
+                return adiabatic
+            if cv.has(EPS):
+                return False          # generic point: not on the slab surface / not at the trench
+            return None
+        V = VecEval(P, F, env={}, choose=choose)
+        i_s = sp.Symbol("n_", integer=True, positive=True)
+        S0 = sp.Symbol("S0", real=True)
+        try:
+            # the thickness declared in front of the range test
+            for st in astq.stmts_of(F.body):
+                if st.get("k") == "DeclStmt":
+                    V.stmt(st)
+            stmts = astq.stmts_of(blk)
+            k_loop = [q for q, st in enumerate(stmts) if st is loop][0]
+            for st in stmts[:k_loop]:
+                if st.get("k") == "DeclStmt":
+                    V.stmt(st)
+            sum_keys = [v["r"] for st in stmts[:k_loop] if st.get("k") == "DeclStmt" for v in st["c"] if v.get("k") == "VarDecl" and V.env.get(v["r"]) == 0]
+            if len(sum_keys) != 1:
+                rep.unknown(rule, "the accumulator of the series (a local starting at 0) was not identified")
+                return
+            sk = sum_keys[0]
+            V.env[sk] = S0
+            V.env[iv["r"]] = i_s
+            V.stmt(loop["c"][3])
+            term = sp.expand(V.env[sk] - S0)
+            start = V.ev(iv["c"][0])
+            last = V.ev(sc(loop["c"][1])["c"][1])
+            V.env[sk] = sp.Symbol("SUM", real=True)
+            for st in stmts[k_loop + 1:]:
+                if st.get("k") == "DeclStmt":
+                    V.stmt(st)
+            rets = [r_ for st in stmts[k_loop + 1:] for r_ in F.walk(st) if r_.get("k") == "ReturnStmt" and r_.get("c") and is_apply_operation(P, sc(r_["c"][0]))]
+            if len(rets) != 1:
+                rep.unknown(rule, "the value handed to apply_operation after the series was not found")
+                return
+            val = V.ev(sc(rets[0]["c"][0])["c"][3])
+        except AnalysisBroken as e:
+            rep.unknown(rule, "slab plate model (%s adiabatic heating): %s" % ("with" if adiabatic else "without", e))
+            return
+        # name the symbols by role
+        names = {}
+        for s_ in (term.free_symbols | val.free_symbols):
+            nm = str(s_).replace("this->", "")
+            names[s_] = nm
+        def sy(name):
+            c_ = [s_ for s_, nm in names.items() if nm == name or nm.endswith("." + name) or nm.endswith("->" + name)]
+            return c_[0] if len(c_) == 1 else None
+        rho, cp, vp, kc, al, Tm, Lmax = sy("density"), sy("specific_heat"), sy("plate_velocity"), sy("thermal_conductivity"), sy("thermal_expansion_coefficient"), \
+            sy("potential_mantle_temperature"), sy("max_depth")
+        dfp, dap, hloc = sy("distance_from_plane"), sy("distance_along_plane"), sy("local_thickness")
+        depth_s, g_s = sy("depth"), sy("gravity_norm")
+        need = [rho, cp, vp, kc, Tm, Lmax, dfp, dap, hloc] + ([al, depth_s, g_s] if adiabatic else [])
+        if any(x is None for x in need):
+            rep.unknown(rule, "slab plate model: parameters not identified by name (%s)" % sorted(names.values())[:12])
+            return
+        H = sp.Min(hloc, Lmax)
+        Rr = rho * cp * (vp / (sp.Rational(36525, 100) * 24 * 60 * 60)) * H / (2 * kc)
+        xs, zs = dap / H, 1 - dfp / H
+        want_term = ((-1) ** i_s / (i_s * sp.pi)) * sp.exp((Rr - sp.sqrt(Rr ** 2 + i_s ** 2 * sp.pi ** 2)) * xs) * sp.sin(i_s * sp.pi * zs)
+        f_ = sp.exp(al * g_s * depth_s / cp) if adiabatic else 1
+        want_val = f_ * (Tm + 2 * (Tm - sp.Rational(27315, 100)) * sp.Symbol("SUM", real=True))
+        import random
+        rnd = random.Random(7)
+        bad = None
+        for trial in range(5):
+            Q = lambda a_, b_: sp.Rational(rnd.randint(int(a_ * 1000), int(b_ * 1000)), 1000)
+            pt = {rho: Q(3000, 3400), cp: Q(1000, 1300), vp: Q(0.01, 0.1), kc: Q(2, 4), Tm: Q(1500, 1700), Lmax: Q(90000, 120000), dfp: Q(1000, 80000), dap: Q(1000, 400000),
+                  hloc: Q(80000, 130000), i_s: sp.Integer(rnd.randint(1, 9)), sp.Symbol("SUM", real=True): Q(-0.4, 0.0), EPS: sp.Rational(1, 10 ** 16)}
+            if adiabatic:
+                pt.update({al: sp.Rational(3, 10 ** 5), g_s: Q(9, 10), depth_s: Q(1000, 600000)})
+            try:
+                d1 = _at(term - want_term, pt)
+                d2 = _at(val - want_val, pt)
+            except Exception as e:
+                rep.unknown(rule, "slab plate model: %s" % e)
+                return
+            if not (abs(d1) < 1e-25 and abs(d2) < 1e-9):      # the literal 273.15 is a double, not 27315/100
+                bad = (d1, d2)
+                break
+        n_terms_ok = (start == 1 and getattr(last, "is_Integer", False) and int(last) >= 100)
+        if bad or not n_terms_ok:
+            rep.violation(rule, "slab plate model (%s adiabatic heating): %s" % ("with" if adiabatic else "without",
+                          "the series runs from n = %s to %s" % (start, last) if not n_terms_ok else "the series term / final expression differ from McKenzie's by (%.3g, %.3g) at a parameter point" % (float(bad[0]), float(bad[1]))),
+                          F.nloc(loop), F.qn, str(term)[:160], "expected T = f (Tm + 2 (Tm - 273.15) sum ((-1)^n/(n pi)) exp((R - sqrt(R^2 + n^2 pi^2)) x') sin(n pi z'))",
+                          key="%s|%s" % (rule, "ad" if adiabatic else "noad"), witness="a slab with the `plate model` temperature and non-default plate velocity")
+        else:
+            n_ok += 1
+    if n_ok == 2:
+        rep.ok(rule, "slab plate model = McKenzie (1970) series (n = 1..%s), with and without adiabatic heating" % last, F.nloc(loop), F.qn)
